@@ -56,21 +56,22 @@ def prepare():
 
 EXAMPLES = '/repo/examples/'       # the TDB files are data, not code under test (mutant copies carry only kawin/)
 
-# Points: P1=(x1,T1) P2=(x2,T1) P3=(x1,T2) P4=(x2,T2); all inside the stable matrix+precipitate window of the
+# Points: P1=(x1,T1) P2=(x2,T1) P3=(x1,T2) P4=(x2,T2), P5=(xu,T1) far inside the single-phase region (driving-force
+# queries only; negative driving force); P1-P4 all inside the stable matrix+precipitate window of the
 # database, supersaturated (driving force > 0) and with a converging two-phase equilibrium (checked in stage
 # 'fresh': a NaN / None / -1 answer on the fresh object is a harness error, not a violation).
 # yeq = lower bound of the smallest solute fraction of the matrix in two-phase equilibrium at these points
 # (checked in stage 'fresh'); it enters the tolerance of curvature-type quantities, see TOL below.
 DBS = {
     'alzr': dict(kind='binary', src=('datasets', 'ALZR_TDB'), elements=['AL', 'ZR'], phases=['FCC_A1', 'AL3ZR'],
-                 x=[0.004, 0.002], T=[673.15, 723.15], g=[0.0, 2000.0, 5000.0], yeq=4e-5, pdens=2000),
+                 x=[0.004, 0.002], xu=1e-5, T=[673.15, 723.15], g=[0.0, 2000.0, 5000.0], yeq=4e-5, pdens=2000),
     'cuti': dict(kind='binary', src=('file', 'CuTi.tdb'), elements=['CU', 'TI'], phases=['FCC_A1', 'CU4TI'],
-                 x=[0.019, 0.012], T=[623.15, 673.15], g=[0.0, 500.0, 1000.0], yeq=2e-3, pdens=2000),
+                 x=[0.019, 0.012], xu=0.001, T=[623.15, 673.15], g=[0.0, 500.0, 1000.0], yeq=2e-3, pdens=2000),
     'ni': dict(kind='multi', src=('datasets', 'NICRAL_TDB'), elements=['NI', 'CR', 'AL'], phases=['FCC_A1', 'FCC_L12'],
-               x=[[0.08, 0.1], [0.06, 0.12]], T=[1073.15, 1023.15], g=[0.0, 200.0], yeq=5e-2, pdens=500),
+               x=[[0.08, 0.1], [0.06, 0.12]], xu=[0.08, 0.04], T=[1073.15, 1023.15], g=[0.0, 200.0], yeq=5e-2, pdens=500),
     'ams': dict(kind='multi', src=('file', 'AlMgSi.tdb'), elements=['AL', 'MG', 'SI'],
                 phases=['FCC_A1', 'MGSI_B_P', 'MG5SI6_B_DP', 'B_PRIME_L'],
-                x=[[0.0072, 0.0057], [0.005, 0.004]], T=[448.15, 498.15], g=[0.0, 500.0], yeq=2e-5, pdens=2000),
+                x=[[0.0072, 0.0057], [0.005, 0.004]], xu=[0.0004, 0.0003], T=[448.15, 498.15], g=[0.0, 500.0], yeq=2e-5, pdens=2000),
 }
 METHODS = ['tangent', 'approximate', 'sampling', 'curvature']
 
@@ -126,6 +127,8 @@ def longlived(db):
 def point(db, i):
     d = DBS[db]
     i = int(i) - 1
+    if i == 4:          # P5: far inside the single-phase region (driving force < 0), first temperature
+        return d['xu'], d['T'][0]
     return d['x'][i % 2], d['T'][i // 2]
 
 
@@ -375,7 +378,10 @@ def run_fresh(case):
             raise RuntimeError('interfacial composition unstable at reference point: %s %s' % (db, sym))
         if n == 'c_eq_alpha' and float(np.min(a)) < DBS[db]['yeq']:
             raise RuntimeError('yeq bound of %s too large: equilibrium matrix composition %r' % (db, a))
-    if sym.startswith('df') and float(parts[0][2].ravel()[0]) <= 0:
+    if sym.startswith('df') and '|P5|' in sym:
+        if not float(parts[0][2].ravel()[0]) < 0:
+            raise RuntimeError('reference point P5 not undersaturated: %s %s' % (db, sym))
+    elif sym.startswith('df') and float(parts[0][2].ravel()[0]) <= 0:
         raise RuntimeError('reference point not supersaturated: %s %s' % (db, sym))
     return {'viol': viol, 'states': 1, 'transitions': 1, 'outcome': sym_kind(sym), 'info': {'answer': pack(parts)}}
 
@@ -489,13 +495,13 @@ def run_batching(case):
 # alphabets
 
 def df_alphabet(method):
-    return ['df|%s|P%d|keep' % (method, i) for i in (1, 2, 3, 4)] + ['df|%s|P1|drop' % method, 'df|%s|P3|drop' % method,
-                                                                     'clear']
+    return ['df|%s|P%d|keep' % (method, i) for i in (1, 2, 3, 4, 5)] + ['df|%s|P1|drop' % method, 'df|%s|P3|drop' % method,
+                                                                        'clear']
 
 
 def mixed_alphabet(db, quick):
     d = DBS[db]
-    a = ['df|tangent|P1|keep', 'df|tangent|P4|keep', 'df|tangent|P2|drop',
+    a = ['df|tangent|P1|keep', 'df|tangent|P4|keep', 'df|tangent|P2|drop', 'df|tangent|P5|keep',
          'df|approximate|P1|keep', 'df|approximate|P3|drop', 'df|sampling|P2|keep', 'df|curvature|P4|keep']
     if d['kind'] == 'binary':
         a += ['ic|T1|g0', 'ic|T2|garr'] + ([] if quick else ['ic|Tarr|grev'])
@@ -805,7 +811,7 @@ def run(ctx):
                 'at least one query before the checked one')
     ctx.bounds = {'history_depth': depth, 'databases': {k: {kk: v[kk] for kk in ('elements', 'phases', 'x', 'T', 'g', 'pdens')}
                                                        for k, v in DBS.items()},
-                  'points': 'P1=(x1,T1) P2=(x2,T1) P3=(x1,T2) P4=(x2,T2)',
+                  'points': 'P1=(x1,T1) P2=(x2,T1) P3=(x1,T2) P4=(x2,T2) P5=(xu,T1) undersaturated, driving-force queries only',
                   'df_alphabet': df_alphabet('<method>'), 'methods': METHODS,
                   'mixed_alphabet': {db: mixed_alphabet(db, quick) for db in dbs},
                   'hashtable_points': HT_POINTS}
